@@ -239,7 +239,8 @@ def render(f):
     f = tup(f)
     op = f[0]
     if op == "atom":
-        return f"tab({f[1]})"
+        # every third table is read as a truthy/falsy non-bool value (same truth value)
+        return f"tabv({f[1]})" if f[1] % 3 == 1 else f"tab({f[1]})"
     if op == "true":
         return "True"
     if op == "false":
